@@ -22,6 +22,9 @@ checks["C10"] = dict(cat="exploration", ref="§7 C10", engine="hello", technique
 checks["C09"] = dict(cat="exploration", ref="§7 C09", engine="session", technique="deterministic simulation (replica agreement): the plugin's schema and the engine's copy rebuilt from the hello message carried over a simulated fragmenting transport are compared inside seeded client/server sessions",
    text="RESTRICTED to the hello clause of C09: for generated plugin schemas the copy rebuilt by Client.ReadSchema must describe itself identically to the plugin's own copy, be a describe/rebuild/describe fixed point, and agree with the plugin's copy on every input, output and signal payload of the simulated session.",
    note="Not decided: the direct (no transport) and YAML fixed-point clauses and behavioural equality on inputs never sent in a session - pure clauses outside this technique. Trusted: rewriter, synctest, cbor.")
+checks["C11"] = dict(cat="exploration", ref="§7 C11", engine="steps", technique="deterministic simulation: seeded and delay-bounded statement-level scheduling of concurrent CallStep/CallSignal goroutines on one CallableSchema, compared call by call with a sequential reference on a fresh copy",
+   text="2-6 goroutines issue step and signal calls for 1-3 run IDs (valid/invalid inputs, unknown IDs, handler misbehaviour, with/without initializer) under random/sticky/PCT schedules and a sweep that holds every statement of schema/step.go, schema.go and signal.go singly (and sampled pairs); oracles: initializer at most once per run ID, all handlers of a run see the same step data, distinct runs distinct data, handler invoked exactly as often and with the same argument as alone, same (outputID, data, error type) as alone, no panic.",
+   note="Trusted: rewriter, synctest, shim mutex. The typed-error and input clauses are checked as the reference oracle of the same runs (the call made alone on a fresh copy); error text is not compared, only the outermost SDK error type.")
 not_yet = {
 }
 na = {
@@ -60,6 +63,7 @@ m = {
  "engines": [
    {"name": "client", "path": "harness/engine_client.go", "serves_properties": ["C08", "C06"], "kind_free_text": "real atp client vs scripted v3/v1 server with byte-offset fault injection on the server stream (fault-free healthy transcripts serve C06)"},
    {"name": "hello", "path": "harness/engine_hello.go", "serves_properties": ["C10"], "kind_free_text": "real Client.ReadSchema vs scripted hello with structural mutations; first-use exercise of accepted schemas"},
+   {"name": "steps", "path": "harness/engine_steps.go", "serves_properties": ["C11"], "kind_free_text": "concurrent CallStep/CallSignal on the real schema package under the seeded scheduler (no ATP)"},
    {"name": "server", "path": "harness/engine_server.go", "serves_properties": ["C07"], "kind_free_text": "real atp server vs scripted client with byte-offset fault injection on the client stream"},
    {"name": "session", "path": "harness/session.go", "serves_properties": ["C05", "C06"], "kind_free_text": "real atp client <-> real atp server over simulated pipes under the seeded scheduler (zzsimrt) inside a testing/synctest bubble"},
  ],
